@@ -536,6 +536,37 @@ func callTreeSeed(t *rapid.T) []byte {
 	return out
 }
 
+// wrappedCFFFile combines two things that are harmless alone: a directory
+// record for the "CFF " table whose offset + length passes 2^32 (its wrapped
+// end lies inside the file, its declared length is close to 4 GiB), and a CFF
+// font program one of whose INDEX offsets is a hostile value sized for its
+// offset width.  A reader that takes the declared length for the size of the
+// table has no file size left to check the INDEX against.
+func wrappedCFFFile(t *rapid.T) []byte {
+	cffb := mutateCFFIndex(t, subrSeed(t))
+	file := refcff.WrapOTF(cffb, rapid.IntRange(1, 9).Draw(t, "wrapNumGlyphs"))
+	f, err := refsfnt.Parse(file)
+	if err != nil {
+		t.Skip("not assembled")
+	}
+	for i, r := range f.Records {
+		if r.Tag != "CFF " {
+			continue
+		}
+		length := rapid.SampledFrom([]uint32{0x40000000, 0x7FFFFFF0, 0xC0000000, 0xFFFFFF00, 0xFFFFFFF0}).Draw(t, "wrapLength")
+		end := r.Offset + length // wraps
+		if end == 0 || int(end) > len(file) || end > r.Offset {
+			// the wrapped end must lie inside the file, in front of the table
+			length = uint32(0x100000000 - uint64(r.Offset) + uint64(rapid.IntRange(1, int(r.Offset)).Draw(t, "wrapEnd")))
+		}
+		binary.BigEndian.PutUint32(file[12+16*i+12:], length)
+		stats.Label("font", "cff-record-wraps-2^32+hostile-index-offset")
+		return file
+	}
+	t.Skip("no CFF record")
+	return nil
+}
+
 func seedFor(t *rapid.T, name string) []byte {
 	switch name {
 	case "sfnt.Read/ReaderAt", "sfnt.Read/Reader", "header.Read":
@@ -834,7 +865,10 @@ func runGroup(t *testing.T, sub string, names ...string) {
 		tg := targetByName(name)
 		seed := seedFor(t, name)
 		var b []byte
-		if strings.HasPrefix(name, "sfnt.Read") || name == "header.Read" {
+		if strings.HasPrefix(name, "sfnt.Read") && rapid.IntRange(0, 9).Draw(t, "wrappedCFF") == 0 {
+			b = wrappedCFFFile(t)
+			seed = b
+		} else if strings.HasPrefix(name, "sfnt.Read") || name == "header.Read" {
 			b = mutateContainer(t, seed)
 		} else {
 			if name == "cff.Read" {
